@@ -27,16 +27,17 @@ def handle : List String → Option String
     let x := if impl == "raw" then ({} : Extra) else extraOf sl mk
     let ops := opsFor (tableOf es) x
     let gen := if impl == "raw" then genRawOps es else genContainerOps es sl mk
-    match gen with
-    | .error e => some s!"gen-error {e}"
-    | .ok g =>
-      if g != ops then some "model-split" else
-      match run ops {} with
-      | none => some "launch-fails"
-      | some ns =>
-        let ms := ns.mounts.map (fun m => "/" ++ String.intercalate "/" m.target ++ "|" ++ fsName m.fs ++ "|" ++ (if m.ro then "ro" else "rw"))
-        let ws := ps.map (fun p => if writable ns (comps (str p)) then "1" else "0")
-        some s!"mounts={String.intercalate ";" ms} host={if ns.host.isNone then "none" else "reachable"} w={String.intercalate "" ws}"
+    -- the answer is the skeleton's namespace (what the property demands); `split` says whether the
+    -- regenerated code still produces that sequence
+    let split := match gen with
+      | .error _ => "gen-error"
+      | .ok g => if g != ops then "1" else "0"
+    match run ops {} with
+    | none => some "launch-fails"
+    | some ns =>
+      let ms := ns.mounts.map (fun m => "/" ++ String.intercalate "/" m.target ++ "|" ++ fsName m.fs ++ "|" ++ (if m.ro then "ro" else "rw"))
+      let ws := ps.map (fun p => if writable ns (comps (str p)) then "1" else "0")
+      some s!"split={split} mounts={String.intercalate ";" ms} host={if ns.host.isNone then "none" else "reachable"} w={String.intercalate "" ws}"
   | _ => none
 
 end GoSandbox.Driver.C05
